@@ -257,6 +257,8 @@ func checkC14(ctx *Ctx) *Result {
 						got = pa.Next[posPhi].Key()
 					}
 					good, detail = false, "the position of the last name seen does not become the element's own position: "+got
+				} else if v := pa.Next[emptyPhi]; v != nil && v.Key() != EMP {
+					good, detail = false, "a non-empty element changes the empty-element counter (the limit would apply per run of empty elements, not to the whole list): "+v.Key()
 				}
 			}
 		default:
@@ -300,6 +302,13 @@ func checkC14(ctx *Ctx) *Result {
 			}
 			if v := pa.Next[emptyPhi]; v != nil && v.Key() != "loopphi:"+emptyPhi+"@"+outer {
 				badOuter = "the empty-element counter is reset between field lines: " + v.Key()
+			}
+		}
+	}
+	for _, pa := range paths {
+		if pa.Start == "entry" && pa.End != "return" {
+			if v := pa.Next[emptyPhi]; v != nil && !v.IsConst("0") {
+				badOuter = "the empty-element counter does not start at 0: " + v.Key()
 			}
 		}
 	}
